@@ -396,8 +396,44 @@ fn gen_long_groups(ctx: &Ctx, rep: &mut Report, r: &mut Rng) {
     }
 }
 
+/// generator 8: payloads far beyond any AIS message (16-bit counters would wrap): unarmor
+/// directly, one huge sentence, and a 255-fragment group of 50-character fragments
+fn gen_huge(ctx: &Ctx, rep: &mut Report, r: &mut Rng) {
+    let lens = [10_922usize, 10_923, 16_384, 21_846, 43_691, 65_536, 70_000];
+    for (i, &len) in lens.iter().enumerate() {
+        if !ctx.mine(i as u64) {
+            continue;
+        }
+        let s = armor_chars(r, len);
+        for fill in [0usize, 5] {
+            rep.eval();
+            if let Err(pi) = mon::call_unarmor(&s, fill) {
+                rep.violation(PID, format!("panic@{}", pi.loc), format!("unarmor of {} characters panicked: '{}' at {}", len, pi.msg, pi.loc), || mon::replay_unarmor(&s[..64], fill, "huge (truncated in the replay)"));
+            }
+        }
+        let mut h = Hist::new();
+        let mut pl = s.clone();
+        pl[0] = b'8';
+        h.feed(rep, "huge-sentence", nmea_ref::mk(1, 1, None, &pl, 0), true);
+        h.feed(rep, "huge-sentence", nmea_ref::mk(2, 1, Some(1), &pl, 0), true);
+    }
+    if ctx.mine(7) {
+        for decode in [false, true] {
+            let mut h = Hist::new();
+            for k in 1..=255u8 {
+                let mut pl = armor_chars(r, 50);
+                if k == 1 {
+                    pl[0] = b'8';
+                }
+                h.feed(rep, "huge-group", nmea_ref::mk(255, k, Some(3), &pl, 0), decode);
+            }
+        }
+    }
+}
+
 pub fn run(ctx: &Ctx, rep: &mut Report) {
     let mut r = ctx.rng("c01");
+    gen_huge(ctx, rep, &mut r);
     gen_long_groups(ctx, rep, &mut r);
     gen_header_product(ctx, rep);
     gen_grammar(ctx, rep, &mut r);
